@@ -361,11 +361,20 @@ class SymExec:
         if name == "len":
             a = self.ev(e.args[0])
             if isinstance(a, Arr):
-                return Symbol(f"n0_{a.name}", integer=True, positive=True)
+                return getattr(a, "length", None) or Symbol(f"n0_{a.name}", integer=True, positive=True)
             if isinstance(a, (tuple, list)):
                 return Integer(len(a))
         if name in ("empty", "zeros", "empty_like", "ones"):
-            return Arr(f"tmp{e.lineno}")
+            a_ = Arr(f"tmp{e.lineno}")
+            # a one-dimensional scratch array of known length: enumerate()/len() use that length
+            if name != "empty_like" and e.args:
+                try:
+                    n_ = self.ev(e.args[0])
+                    if isinstance(n_, sp.Expr):
+                        a_.length = n_
+                except Undecided:
+                    pass
+            return a_
         raise Undecided(f"call `{src(e)[:60]}`")
 
     # ------------------------------------------------------------ statements
@@ -542,7 +551,8 @@ class SymExec:
             v = Symbol(iv.id, integer=True)
             self.env[iv.id] = v
             self.env[xv.id] = arr.read([v])
-            self.body_once(st, v, Integer(0), Symbol(f"n0_{arr.name}", integer=True, positive=True), {iv.id, xv.id})
+            self.body_once(st, v, Integer(0), getattr(arr, "length", None) or Symbol(f"n0_{arr.name}", integer=True, positive=True),
+                           {iv.id, xv.id})
             return
         raise Undecided(f"loop over `{src(it)[:40]}`")
 
@@ -708,8 +718,51 @@ def bool_eval(c, val):
     return (not v) if n else v
 
 
+def _ws_bounds(W):
+    """(lower bounds, upper bounds) guaranteed by the exit condition of the shift loops that produced W"""
+    v, kind, bound, step = W.args
+    lo, hi = [], []
+    if int(kind) in (1, 2):        # while v < B: v += s   ->  v >= B
+        lo.append(bound)
+    if int(kind) in (3, 4):        # while v > B: v -= s   ->  v <= B
+        hi.append(bound)
+    if isinstance(v, WhileShift):
+        v0, k0, b0, s0 = v.args
+        # first `while v < b0: v += w`, then `while v > B: v -= w` with w = B - b0 > 0: the result stays >= b0
+        if int(kind) in (3, 4) and int(k0) in (1, 2) and sp.expand(step + (bound - b0)) == 0 and sp.expand(s0 - (bound - b0)) == 0:
+            lo.append(b0)
+        if int(kind) in (1, 2) and int(k0) in (3, 4) and sp.expand(step - (b0 - bound)) == 0 and sp.expand(s0 + (b0 - bound)) == 0:
+            hi.append(b0)
+    return lo, hi
+
+
+def _forced(k, e):
+    """truth value of the atom `e <k> 0` forced by the exit conditions of shift loops, or None"""
+    if k not in ("lt", "le"):
+        return None
+    for W in e.atoms(WhileShift):
+        lo, hi = _ws_bounds(W)
+        X = sp.expand(W - e)           # e = W - X
+        if not X.has(W):
+            if k == "lt" and any(sp.expand(X - b) == 0 for b in lo):
+                return False           # W < lower bound
+            if k == "le" and any(sp.expand(X - b) == 0 for b in hi):
+                return True            # W <= upper bound
+        Y = sp.expand(e + W)           # e = Y - W
+        if not Y.has(W):
+            if k == "lt" and any(sp.expand(Y - b) == 0 for b in hi):
+                return False           # upper bound < W
+            if k == "le" and any(sp.expand(Y - b) == 0 for b in lo):
+                return True            # lower bound <= W
+    return None
+
+
 def consistent(val):
-    """(e<0) implies (e<=0); (e==0) implies (e<=0) and not (e<0)"""
+    """(e<0) implies (e<=0); (e==0) implies (e<=0) and not (e<0); exit conditions of shift loops"""
+    for (k, e), v in val.items():
+        f = _forced(k, e)
+        if f is not None and f != v:
+            return False
     by = {}
     for (k, e), v in val.items():
         by.setdefault(e, {})[k] = v
